@@ -325,6 +325,9 @@ func isNillable(t types.Type) bool {
 }
 
 func mkPhi(alts []*Term, v ssa.Value) *Term {
+	if len(alts) == 1 && alts[0] != nil && alts[0].Op != "cycle" && v == nil {
+		return alts[0]
+	}
 	seen := map[string]bool{}
 	var out []*Term
 	loop := false
